@@ -107,7 +107,7 @@ def _sweep(ctx, p, rng):
     for op in (operator.add, operator.sub, operator.mul, operator.truediv):
         _t(ctx, lambda: op(x, y)); _t(ctx, lambda: op(x, 2.5)); _t(ctx, lambda: op(2.5, y)); _t(ctx, lambda: op(x, c)); _t(ctx, lambda: op(c, y))
     xp = mk('pos')
-    for r in (2, 3, -1, 0.5, 2.5):
+    for r in (2, 3, -1, 0.5, 2.5, 5, 6, 9, np.int64(11), 12, -3):
         _t(ctx, lambda: xp ** r)
     _t(ctx, lambda: 2.0 ** x); _t(ctx, lambda: xp ** x)
     _t(ctx, lambda: algopy.minimum(x, y)); _t(ctx, lambda: algopy.maximum(x, y))
@@ -279,9 +279,12 @@ def _entry(ctx, p, rng):
     for shp in [(3,), (1,), (3, 3), (2, 4), (4, 2), (1, 1)]:
         for k in (0, 1, -1):
             calls.append(('diag', algopy.diag, np.diag, [U(shp), ('c', k)], {}))
+            calls.append(('diag:keyword', algopy.diag, np.diag, [U(shp)], {'k': k}))
             if len(shp) == 2:
                 calls.append(('triu', algopy.triu, np.triu, [U(shp), ('c', k)], {}))
                 calls.append(('tril', algopy.tril, np.tril, [U(shp), ('c', k)], {}))
+                calls.append(('triu:keyword', algopy.triu, np.triu, [U(shp)], {'k': k}))
+                calls.append(('tril:keyword', algopy.tril, np.tril, [U(shp)], {'k': k}))
     for shp in [(3, 3), (4, 2), (2, 4), (1, 1), (3, 1)]:
         calls.append(('trace', algopy.trace, np.trace, [U(shp)], {}))
     for shp in [(2, 3), (1, 3), (3, 1), (2, 3, 2), (1,)]:
